@@ -41,5 +41,6 @@ func (a *AutoComplete) autoCompleteCallback(t *terminal.Terminal, line string, p
 		}
 		fmt.Fprintln(t.Out)
 	}
-	return commands[0][:l], l, true
+	// Only what is before the cursor is completed: keep the rest of the line (it used to be erased).
+	return commands[0][:l] + line[pos:], l, true
 }
